@@ -1,6 +1,6 @@
 package types
 
-// C18, type-specific initialisation of an Ethereum client, from an arbitrary pre-state of the (re-used) client store:
+// C18, type-specific initialisation of an Ethereum client, on the empty client store its callers guarantee:
 // after a successful Initialize or UpgradeState the installed header is indexed under its hash and height - what
 // the next header update looks its parent up by - and the main-chain entry of its state root points to it - what
 // proof verification at the installed height resolves the root through.
@@ -20,7 +20,7 @@ func VerifC18InitEth() {
 		}
 		return common.BytesToHash([]byte(rt.UFStr("rlpHash", x)))
 	})
-	ctx := rt.Ctx()
+	ctx := rt.EmptyCtx() // Initialize runs on the empty client store of an unused (create) or cleared (toggle) chain name
 	cdc := rt.Codec()
 	store := ctx.KVStore(rt.StoreKey("xibc"))
 	hd := Header{ParentHash: rt.BytesN("parentHash", 32), UncleHash: rt.Bytes("uncleHash"), Coinbase: rt.Bytes("coinbase"), Root: rt.Bytes("root"),
